@@ -343,7 +343,7 @@ fn seq_admin(st: &mut SeqState, rng: &mut Rng, late: usize) -> Option<Op> {
 fn gen_seq(rng: &mut Rng, flavour: &str, cap: usize, thorough: bool) -> Vec<Vec<Op>> {
   let f = fl(flavour);
   if f.lock {
-    let n = rng.range(6, 18);
+    let n = rng.range(3, 9);
     return vec![gen_lock_thread(rng, flavour, 0, n, true)];
   }
   let mut st = SeqState::new(f, cap);
@@ -432,10 +432,10 @@ fn gen_conc(rng: &mut Rng, flavour: &str, cap: usize, thorough: bool) -> Vec<Vec
   let f = fl(flavour);
   let max_ops = if thorough { 6 } else { 4 };
   if f.lock {
-    let k = rng.range(2, 3);
+    let k = if flavour == "rwlock" { rng.range(2, 4) } else { rng.range(2, 3) };
     let mut progs = vec![Vec::new()];
     for t in 1..=k {
-      let n = rng.range(2, max_ops + 2);
+      let n = rng.range(1, max_ops.min(3));
       progs.push(gen_lock_thread(rng, flavour, t, n, false));
     }
     return progs;
@@ -665,56 +665,77 @@ fn gen_async(rng: &mut Rng, flavour: &str, cap: usize, thorough: bool) -> Vec<Ve
 // ---------------------------------------------------------------- locks
 
 fn gen_lock_thread(rng: &mut Rng, flavour: &str, tid: usize, n: usize, seq: bool) -> Vec<Op> {
+  // A thread's program is a list of episodes; it never blocks while it holds (or may hold) a guard.
+  // Guard names g<tid>_<k>, future names f<tid>_<k> (unique per case).
   let rw = flavour == "rwlock";
   let mut ops = Vec::new();
-  // held guards of this thread: (name, exclusive)
-  let mut held: Vec<(String, bool)> = Vec::new();
   let mut k = 0usize;
-  for _ in 0..n {
-    let can_block_excl = held.is_empty();
-    let can_block_read = !held.iter().any(|(_, e)| *e);
-    let g = format!("g{}{}", tid, (b'a' + (k % 26) as u8) as char);
-    let c = rng.weighted(&[30, 22, 34, 14]);
-    match c {
-      0 | 3 => {
-        // blocking acquire (sync or async)
-        let asy = c == 3;
-        if rw {
-          let write = rng.chance(45);
-          if write && can_block_excl {
-            ops.push(Op::new(&[if asy { "write_async" } else { "write" }, &g]));
-            held.push((g, true));
-            k += 1;
-          } else if !write && can_block_read && (!seq || can_block_read) {
-            ops.push(Op::new(&[if asy { "read_async" } else { "read" }, &g]));
-            held.push((g, false));
-            k += 1;
-          }
-        } else if can_block_excl {
-          ops.push(Op::new(&[if asy { "lock_async" } else { "lock" }, &g]));
-          held.push((g, true));
+  let mut fk = 0usize;
+  let mut episodes = 0usize;
+  while episodes < n {
+    episodes += 1;
+    let g = format!("g{}_{}", tid, k);
+    k += 1;
+    let kind = rng.weighted(&[30, 18, 16, if seq { 8 } else { 22 }, 8]);
+    match kind {
+      0 | 2 => {
+        // blocking acquire (sync / on the executor), optional probes while held, release
+        let asy = kind == 2;
+        let form = if rw {
+          if rng.chance(45) { if asy { "write_async" } else { "write" } } else if asy { "read_async" } else { "read" }
+        } else if asy {
+          "lock_async"
+        } else {
+          "lock"
+        };
+        ops.push(Op::new(&[form, &g]));
+        if rng.chance(30) {
+          // a try form while holding: mutex -> none; rwlock try_read may succeed next to a read guard
+          let g2 = format!("g{}_{}", tid, k);
           k += 1;
+          let tform = if rw { *rng.pick(&["try_read", "try_write"]) } else { "try_lock" };
+          ops.push(Op::new(&[tform, &g2]));
+          ops.push(Op::new(&["unlock", &g2]));
         }
+        ops.push(Op::new(&["unlock", &g]));
       }
       1 => {
-        // try form: may fail (then the guard name stays unused); never blocks
         let form = if rw { *rng.pick(&["try_read", "try_write"]) } else { "try_lock" };
         ops.push(Op::new(&[form, &g]));
-        k += 1;
-        // the generator does not know whether it succeeded: release it right away (invalid:noguard is harmless)
+        // released right away; `invalid:noguard` when the try failed
+        ops.push(Op::new(&["unlock", &g]));
+      }
+      3 => {
+        // manual future: polled 1-3 times, dropped pending / woken / after completion
+        let f = format!("f{}_{}", tid, fk);
+        fk += 1;
+        let kindf = if rw { *rng.pick(&["read_fut", "write_fut"]) } else { "lock_fut" };
+        ops.push(Op::new(&["fut", &f, "=", kindf, &g]));
+        let polls = rng.range(0, 3);
+        for _ in 0..polls {
+          ops.push(Op::new(&["poll", &f]));
+          if rng.chance(30) {
+            ops.push(Op::new(&["wakes", &f]));
+          }
+        }
+        ops.push(Op::new(&["dropfut", &f]));
         ops.push(Op::new(&["unlock", &g]));
       }
       _ => {
-        if !held.is_empty() {
-          let i = rng.below(held.len());
-          let (name, _) = held.remove(i);
-          ops.push(Op::new(&["unlock", &name]));
+        // two read guards at once (rwlock), or a plain lock/unlock pair
+        if rw {
+          let g2 = format!("g{}_{}", tid, k);
+          k += 1;
+          ops.push(Op::new(&["read", &g]));
+          ops.push(Op::new(&["try_read", &g2]));
+          ops.push(Op::new(&["unlock", &g]));
+          ops.push(Op::new(&["unlock", &g2]));
+        } else {
+          ops.push(Op::new(&["lock", &g]));
+          ops.push(Op::new(&["unlock", &g]));
         }
       }
     }
-  }
-  for (name, _) in held {
-    ops.push(Op::new(&["unlock", &name]));
   }
   ops
 }
@@ -730,9 +751,9 @@ fn gen_lock_async(rng: &mut Rng, flavour: &str) -> Vec<Vec<Op>> {
   for _ in 0..n {
     match rng.weighted(&[22, 30, 10, 8, 14, 16]) {
       0 => {
-        let f = format!("f{}", nf);
+        let f = format!("f0_{}", nf);
         nf += 1;
-        let g = format!("g{}", ng);
+        let g = format!("g0_{}", ng);
         ng += 1;
         let kind = if rw { *rng.pick(&["read_fut", "write_fut"]) } else { "lock_fut" };
         ops.push(Op::new(&["fut", &f, "=", kind, &g]));
@@ -753,7 +774,7 @@ fn gen_lock_async(rng: &mut Rng, flavour: &str) -> Vec<Vec<Op>> {
         ops.push(Op::new(&["wakes", &f]));
       }
       4 => {
-        let g = format!("g{}", ng);
+        let g = format!("g0_{}", ng);
         ng += 1;
         let form = if rw { *rng.pick(&["try_read", "try_write"]) } else { "try_lock" };
         ops.push(Op::new(&[form, &g]));
